@@ -48,7 +48,7 @@ Subprocess, dispatchers, loggers) never started / running / its files removed / 
 documented fault codes, the documented shape of the value (value-shape:<method>, from the @return tag), SHUTDOWN_STATE below
 RUNNING, and system.multicall == the calls one by one.
 """
-import errno, inspect, os, re, socket, sys, types
+import errno, inspect, os, random, re, socket, sys, types
 from framework import Infra
 
 ID = 'C12'
@@ -1509,6 +1509,225 @@ def run_e2e(ctx):
 
 
 # =================================================================================================
+# additional registered namespaces (`[rpcinterface:x]` plugins): introspection of EVERY listed method, name resolution,
+# calls and multicall/sequential equivalence over the wire.  The built-in namespaces document every method (a project test
+# enforces it), so everything that depends on what a namespace's attributes look like -- no docstring, a docstring without
+# tags, malformed tags, a docstring that is not a string, callables that are not methods, underscore names, answers given
+# later -- only shows with a namespace that somebody else wrote.
+# =================================================================================================
+PLUGIN_NS = ['plugin', 'x', 'laforge', 'ns2', 'Supervisor']
+PLUGIN_ATTRS = ['ping', 'getPID', 'startProcess', 'listMethods', 'a', 'b1', 'x_y', 'doIt', 'status', '_private', '_update', '__dunder__', '_', 'z9']
+PLUGIN_DOCS = [None, None, '', 'Just prose, no tags.', ' Ping the plugin\n\n        @return string result  The answer\n        ',
+               ' Do it\n\n        @param string name  A name\n        @param int n\n        @return boolean result Always true\n        ',
+               '@return', '@', '@param', '@return\n@return array x', '@param string\n@return', '   @return   struct   result   several   words  here ',
+               'café €\n@return string résultat', '@@return int x', 'text @return int not-at-line-start', 7, 0, '\n\n', '@return\tint\tx\ty z']
+PLUGIN_BEHS = [['v', 1], ['v', 'pong'], ['v', {'k': [1, 'café', True]}], ['v', True], ['f', 10], ['f', 70], ['f', 2], ['d', 0, ['v', 5]], ['d', 2, ['v', 'late']],
+               ['d', 1, ['f', 30]], ['none'], ['raise']]
+PLUGIN_CORPUS = [    # the input of seeded change C12-9 (demo.py): namespace `plugin`, one public method nobody documented
+    {'ns': 'plugin', 'mood': 1, 'attrs': [['ping', 'm', None, 0, 0, ['v', 'pong']]]},
+    {'ns': 'x', 'mood': 0, 'attrs': [['a', 'm', None, 1, 2, ['d', 1, ['v', 3]]], ['b1', 'm', '@return', 0, 0, ['f', 10]], ['_private', 'm', None, 0, 0, ['v', 1]],
+                                      ['status', 'static', None, 0, 0, ['v', 1]], ['z9', 'data', None, 0, 0, ['v', 1]], ['doIt', 'class', 7, 0, 1, ['none']]]},
+]
+
+
+def gen_plugin(rng):
+    attrs = []
+    for name in rng.sample(PLUGIN_ATTRS, rng.randrange(1, 8)):
+        kind = rng.choice(['m', 'm', 'm', 'm', 'm', 'class', 'static', 'callable-object', 'data', 'property'])
+        mn = rng.randrange(0, 3)
+        attrs.append([name, kind, rng.choice(PLUGIN_DOCS), mn, mn + rng.randrange(0, 2), rng.choice(PLUGIN_BEHS)])
+    return {'ns': rng.choice(PLUGIN_NS), 'mood': rng.choice([1, 1, 1, 0, -1, 2]), 'attrs': attrs}
+
+
+def plugin_namespace(desc, log):
+    """the namespace object an rpcinterface factory would return, built from its description"""
+    from supervisor.xmlrpc import RPCError
+    from supervisor.http import NOT_DONE_YET
+    def function(label, mn, mx, beh, first):
+        def finish(b):
+            if b[0] == 'v': return b[1]
+            if b[0] == 'f': raise RPCError(b[1])
+            if b[0] == 'none': return None
+            if b[0] == 'raise': raise ValueError('boom')
+            left = [b[1]]
+            def cb():
+                if left[0] > 0:
+                    left[0] -= 1
+                    return NOT_DONE_YET
+                return finish(b[2])
+            cb.delay = 0.05
+            return cb
+        def body():
+            log.append(label)
+            return finish(beh)
+        params = first + ['a%d' % i for i in range(mn)] + ['b%d=None' % i for i in range(mx - mn)]
+        g = {'_body': body}
+        exec('def %s(%s):\n    return _body()' % (label if label.isidentifier() else 'f', ', '.join(params)), g)
+        return g[label if label.isidentifier() else 'f']
+    cls = {}
+    for name, kind, doc, mn, mx, beh in desc['attrs']:
+        if kind == 'data':
+            cls[name] = 5
+            continue
+        if kind == 'property':
+            cls[name] = property(lambda self: 'value of a property')
+            continue
+        f = function(name, mn, mx, beh, {'m': ['self'], 'class': ['cls'], 'static': [], 'callable-object': ['self']}[kind])
+        f.__doc__ = doc
+        if kind == 'class':
+            f = classmethod(f)
+        elif kind == 'static':
+            f = staticmethod(f)
+        elif kind == 'callable-object':
+            f = type('Callable', (object,), {'__call__': f, '__doc__': doc})()
+        cls[name] = f
+    return type('PluginNamespace', (object,), cls)()
+
+
+def plugin_world(ctx, desc, log):
+    from supervisor import xmlrpc
+    sup, iface, subs = make_real(mood=desc['mood'])
+    subs2 = [('supervisor', iface), (desc['ns'], plugin_namespace(desc, log))]
+    subs2.append(('system', xmlrpc.SystemNamespaceRPCInterface(subs2)))        # as make_http_servers does
+    return sup, xmlrpc.supervisor_xmlrpc_handler(sup, subs2)
+
+
+def ref_signature(doc_text):
+    """what the documentation tags of a docstring say: [return type, parameter types...]; None when there is no @return tag
+    (written from the description of the tag format in docs: a line `@<tag> <type> <name> <text>`, not by calling gettags)"""
+    rtype, ptypes = None, []
+    for line in doc_text.split('\n'):
+        words = line.split()
+        if not words or not words[0].startswith('@'):
+            continue
+        ty = words[1] if len(words) > 1 else ''
+        if words[0] == '@return':
+            rtype = ty
+        elif words[0] == '@param':
+            ptypes.append(ty)
+    return None if rtype is None else [rtype] + ptypes
+
+
+def plugin_case(ctx, desc, cuts_seed=None, regression=None):
+    from supervisor import xmlrpc
+    F = xmlrpc.Faults
+    codes = set(v for k, v in vars(F).items() if not k.startswith('_'))
+    ns = desc['ns']
+    inp = {'part': 'plugin', 'desc': desc, 'cuts_seed': cuts_seed, 'regression': regression}
+    crng = random.Random(cuts_seed) if cuts_seed is not None else None
+    prng = random.Random(repr(desc))               # choices inside the case depend on the input only (replay)
+    log = []
+    sup, h = plugin_world(ctx, desc, log)
+    ctx.count('plugin:worlds'); ctx.case_done(('plugin', repr(desc), cuts_seed), nontrivial=True)
+    attrs = dict((a[0], a) for a in desc['attrs'])
+
+    def ask(method, params):
+        """-> ('value', v) | ('fault', code) | ('http', status) | ('unparseable', what); the 'never 500 / documented code' monitors"""
+        cuts = auto_cuts(crng, method, params) if crng is not None and crng.random() < 0.5 else None
+        res = wire_request(h, method, params, cuts=cuts, replay_input=inp, noresp_kind=NOFRAG if cuts else None)
+        what = '%s%r with the registered namespace %r = {%s}' % (method, tuple(params), ns, ', '.join(
+            '%s: %s, doc %r, answers %r' % (a[0], a[1], a[2], a[5]) for a in desc['attrs']))
+        label = method if method.startswith('system.') else 'plugin-method'
+        if res.get('status') != 200:
+            out = ('http', res.get('status'))
+            ctx.violation(('http-500:' if res.get('status') == 500 else 'http-error:') + label, '%s produced HTTP %r' % (what, res.get('status')), inp)
+        else:
+            out = res['answer']
+            if out[0] == 'fault' and out[1] not in codes:
+                ctx.violation('undocumented-fault-code', '%s answered fault %r' % (what, out[1]), inp)
+            elif out[0] == 'unparseable':
+                ctx.violation('response-unparseable:' + label, '%s: the response body cannot be parsed (%s)' % (what, out[1]), inp)
+        ctx.count('plugin:' + label + ':' + out[0])
+        return out, what
+
+    # ---- what is published: the public callables the namespace's class defines, nothing underscore, and the built-in API
+    pub = sorted('%s.%s' % (ns, a[0]) for a in desc['attrs'] if a[1] not in ('data', 'property') and not a[0].startswith('_'))
+    listed, what = ask('system.listMethods', [])
+    if listed[0] != 'value' or not isinstance(listed[1], list):
+        if listed[0] not in ('http', 'unparseable'):
+            ctx.violation('value-shape:system.listMethods', '%s answered %r' % (what, listed), inp)
+        return
+    mine = sorted(n for n in listed[1] if isinstance(n, str) and n.split('.')[0] == ns)
+    if mine != pub or listed[1] != sorted(listed[1]) or any(n.split('.')[-1].startswith('_') for n in listed[1]):
+        ctx.violation('listMethods-wrong', '%s lists %r of the namespace; its public callables are %r' % (what, mine, pub), inp)
+    # ---- introspection of EVERY listed method of the namespace (and a sample of the built-in ones)
+    singles = []
+    builtin = [n for n in listed[1] if n not in mine]
+    for name in mine + prng.sample(builtin, min(2, len(builtin))) + [ns + '.nosuch', ns + '._private', ns]:
+        a = attrs.get(name.split('.', 1)[1]) if name in mine else None
+        out, what = ask('system.methodHelp', [name])
+        singles.append((('system.methodHelp', [name]), out))
+        if name in listed[1]:
+            if out[0] == 'value' and not isinstance(out[1], str):
+                ctx.violation('value-shape:system.methodHelp', '%s answered %s, not a string' % (what, short(out[1])), inp)
+            elif out[0] == 'fault':
+                ctx.violation('listed-method-without-help', '%s answered fault %r although system.listMethods lists the name' % (what, out[1]), inp)
+            elif a is not None and out[0] == 'value' and out[1] != str(a[2]):
+                ctx.violation('methodHelp-wrong-text', '%s answered %r; the docstring is %r' % (what, out[1], a[2]), inp)
+        elif out[0] not in ('http', 'unparseable') and out != ('fault', F.SIGNATURE_UNSUPPORTED):
+            ctx.violation('help-for-unlisted-name', '%s answered %r for a name system.listMethods does not list' % (what, out), inp)
+        out, what = ask('system.methodSignature', [name])
+        singles.append((('system.methodSignature', [name]), out))
+        if out[0] == 'value' and not (isinstance(out[1], list) and out[1] and all(isinstance(t, str) for t in out[1])):
+            ctx.violation('value-shape:system.methodSignature', '%s answered %s, not an array of type names' % (what, short(out[1])), inp)
+        elif out[0] == 'fault' and out[1] != F.SIGNATURE_UNSUPPORTED:
+            ctx.violation('signature-fault-not-SIGNATURE_UNSUPPORTED', '%s answered fault %r' % (what, out[1]), inp)
+        elif a is not None and out[0] in ('value', 'fault'):
+            ref = ref_signature(str(a[2]))
+            want = ('fault', F.SIGNATURE_UNSUPPORTED) if ref is None else ('value', ref)
+            if out != want:
+                ctx.violation('methodSignature-wrong', '%s answered %r; the tags of the docstring %r say %r' % (what, out, a[2], want), inp)
+        elif name not in listed[1] and out[0] == 'value':
+            ctx.violation('help-for-unlisted-name', '%s answered %r for a name system.listMethods does not list' % (what, out), inp)
+    # ---- name resolution and calls: bound methods answer what they answer, everything else is refused and runs nothing
+    for name, kind, doc, mn, mx, beh in desc['attrs']:
+        full = '%s.%s' % (ns, name)
+        callable_rpc = kind in ('m', 'class') and not name.startswith('_')
+        if callable_rpc and beh[0] in ('none', 'raise'):
+            continue               # the plugin itself breaks the contract (None is not an XML-RPC value; a foreign exception): not judged
+        for nargs in sorted(set([mn, mx, mx + 1])):
+            del log[:]
+            params = [1] * nargs
+            out, what = ask(full, params)
+            if out[0] in ('http', 'unparseable'):
+                continue
+            if not callable_rpc:
+                want = ('fault', F.UNKNOWN_METHOD)
+            elif nargs > mx:
+                want = ('fault', F.INCORRECT_PARAMETERS)
+            else:
+                fin = beh[2] if beh[0] == 'd' else beh
+                want = ('fault', fin[1]) if fin[0] == 'f' else ('value', fin[1])
+                singles.append(((full, params), out))
+            if out != want:
+                ctx.violation('plugin-call-wrong-answer', '%s answered %r, required %r' % (what, out, want), inp)
+            ran = [l for l in log if l == name]
+            if (not callable_rpc or nargs > mx) and ran:
+                ctx.violation('refused-call-executed', '%s was refused but the body of %s ran' % (what, name), inp)
+    # ---- system.multicall: element for element what the single requests answered
+    if singles:
+        picks = singles if len(singles) <= 12 else [singles[i] for i in sorted(prng.sample(range(len(singles)), 12))]
+        calls = [{'methodName': m, 'params': p} for (m, p), _ in picks]
+        out, what = ask('system.multicall', [calls])
+        if out[0] == 'value':
+            got = [('fault', x['faultCode']) if isinstance(x, dict) and 'faultCode' in x else ('value', x) for x in out[1]] if isinstance(out[1], list) else out[1]
+            want = [o for _, o in picks]
+            if got != want:
+                ctx.violation('multicall-differs-from-sequential', 'system.multicall(%r) with the registered namespace %r answered %r, single requests answer %r'
+                              % ([(m, p) for (m, p), _ in picks], ns, got, want), inp)
+        elif out[0] == 'fault':
+            ctx.violation('multicall-differs-from-sequential', '%s answered fault %r as a whole; single requests answer %r' % (what, out[1], [o for _, o in picks]), inp)
+
+
+def run_plugins(ctx):
+    for desc in PLUGIN_CORPUS:
+        plugin_case(ctx, desc, None, 'C12-9')
+        plugin_case(ctx, desc, 1, 'C12-9')
+    for i in range(ctx.n(40, 400)):
+        plugin_case(ctx, gen_plugin(ctx.rng), ctx.rng.randrange(1 << 30) if i % 2 else None)
+
+
+# =================================================================================================
 # end to end, deferred answers: the real DeferredXMLRPCResponse polled until the HTTP response completes
 # =================================================================================================
 class SlowNs(object):
@@ -2925,6 +3144,7 @@ def run(ctx):
     run_logstates(ctx)
     run_frag(ctx)
     run_e2e_deferred(ctx)
+    run_plugins(ctx)
     run_waits(ctx)
     run_waits2(ctx)
     run_logs_real(ctx)
@@ -2972,6 +3192,8 @@ def replay(ctx, data):
             deferred_check(ctx, inp['method'], res, direct_call(xmlrpc.RootRPCInterface(subs3), inp['method'], inp['params']), inp)
         else:
             e2e_case(ctx, inp['method'], inp['params'], inp.get('mood', 1), extra, prepare)
+    elif part == 'plugin':
+        plugin_case(ctx, inp['desc'], inp.get('cuts_seed'), inp.get('regression'))
     elif part == 'e2e-multi':
         e2e_multi_case(ctx, [(m, p) for m, p in inp['calls']], inp.get('logstate'))
     elif part == 'e2e-frag':
